@@ -1,2 +1,207 @@
-(* C20 — stub: no theorems yet *)
+(* C20 -- Level names and the level HTTP endpoint set exactly the requested level.
+   Only statements closed by [exact]; the proofs are in C20/Proofs.v.
+
+   G is the record of name tables regenerated from zapcore/level.go and level.go on
+   every run (Gen/Levels.v); [level_string], [level_capital], [level_unmarshal_text],
+   [serve], [run] are the model of the Go code over those tables (C20/Model.v);
+   [spec_parse], [spec_name], [spec_names_level], [accept_list] are the hand-written
+   specification.  Levels are integers; [valid_level l] is -1 <= l <= 5 (debug..fatal).
+   A text operation returns (new value of the target, ok). *)
+From Coq Require Import List ZArith Bool.
+From Coq.Strings Require Import Byte.
+Import ListNotations.
 From Zap Require Import Base.Wire C20.Model C20.Proofs.
+Open Scope Z_scope.
+
+(* the regenerated tables are the documented ones: seven names, their capitals, the
+   aliases "warning" and "", Level(%d)/LEVEL(%d) for anything else, constants -1..5, 6 *)
+Theorem C20_generated_tables : checker G = true.
+Proof. exact G_checked. Qed.
+Print Assumptions C20_generated_tables.
+
+(* String / CapitalString / MarshalText of every level value *)
+Theorem C20_names : forall l,
+  level_string G l = spec_name l /\ level_capital G l = spec_capital l /\
+  level_marshal_text G l = level_string G l.
+Proof. exact (fun l => conj (level_string_spec G G_checked l) (conj (level_capital_spec G G_checked l) eq_refl)). Qed.
+Print Assumptions C20_names.
+
+(* every valid level round-trips through its lower-case name, its capital name and its
+   marshalled text, whatever the target held before *)
+Theorem C20_roundtrip : forall l tgt, valid_level l = true ->
+  level_unmarshal_text G tgt (level_string G l) = (l, true) /\
+  level_unmarshal_text G tgt (level_capital G l) = (l, true) /\
+  level_unmarshal_text G tgt (level_marshal_text G l) = (l, true).
+Proof. exact (roundtrip_thm G G_checked). Qed.
+Print Assumptions C20_roundtrip.
+
+(* Set, ParseLevel, AtomicLevel.UnmarshalText (allocated or zero value), ParseAtomicLevel
+   are UnmarshalText on the right target (flag, encoding/json and yaml reach the same
+   method through flag.Value / encoding.TextUnmarshaler: observed, see props/C20.json) *)
+Theorem C20_entry_points : forall tgt t,
+  level_set G tgt t = level_unmarshal_text G tgt t /\
+  parse_level G t = level_unmarshal_text G 0 t /\
+  atomic_unmarshal_text G (Some tgt) t = level_unmarshal_text G tgt t /\
+  atomic_unmarshal_text G None t = level_unmarshal_text G 0 t /\
+  parse_atomic_level G t = level_unmarshal_text G 0 t.
+Proof. exact (entry_points_thm G G_checked). Qed.
+Print Assumptions C20_entry_points.
+
+(* parsing is ASCII-case-insensitive: texts equal up to ASCII case parse alike ... *)
+Theorem C20_case_insensitive : forall tgt t t', ascii_lower t = ascii_lower t' ->
+  level_unmarshal_text G tgt t = level_unmarshal_text G tgt t'.
+Proof. exact (case_insensitive_thm G G_checked). Qed.
+Print Assumptions C20_case_insensitive.
+
+(* ... in particular every case variant of a valid level's name reads as that level *)
+Theorem C20_any_case_of_name : forall l tgt t, valid_level l = true ->
+  ascii_lower t = level_string G l -> level_unmarshal_text G tgt t = (l, true).
+Proof. exact (any_case_of_name_thm G G_checked). Qed.
+Print Assumptions C20_any_case_of_name.
+
+(* the accepted texts are exactly the case variants of the seven names, of "warning" and
+   the empty string; any other byte string is rejected and the target keeps its value *)
+Theorem C20_accept_exact : forall tgt t,
+  (forall l, level_unmarshal_text G tgt t = (l, true) <-> In (ascii_lower t, l) accept_list) /\
+  ((forall l, ~ In (ascii_lower t, l) accept_list) -> level_unmarshal_text G tgt t = (tgt, false)).
+Proof. exact (accept_exact_thm G G_checked). Qed.
+Print Assumptions C20_accept_exact.
+
+Theorem C20_reject_unchanged : forall tgt t l ok,
+  level_unmarshal_text G tgt t = (l, ok) -> ok = false -> l = tgt /\ spec_parse t = None.
+Proof. exact (reject_unchanged_thm G G_checked). Qed.
+Print Assumptions C20_reject_unchanged.
+
+Theorem C20_empty_info : forall tgt, level_unmarshal_text G tgt [] = (0, true).
+Proof. exact (empty_info_thm G G_checked). Qed.
+Print Assumptions C20_empty_info.
+
+(* what String/CapitalString print for the other 249 values is not a level name *)
+Theorem C20_invalid_level_text_rejected : forall l tgt, valid_level l = false ->
+  level_unmarshal_text G tgt (level_string G l) = (tgt, false) /\
+  level_unmarshal_text G tgt (level_capital G l) = (tgt, false).
+Proof. exact (invalid_level_text_rejected_thm G G_checked). Qed.
+Print Assumptions C20_invalid_level_text_rejected.
+
+(* one HTTP request (any method, content type, form, body) against level cur:
+   a PUT naming a valid level l is answered 200, sets exactly l and reports it;
+   otherwise the level is unchanged, GET is answered 200 with the level in force,
+   a PUT 400 and any other method 405 with an error body;
+   the level changes only if the request is a PUT naming the new level;
+   a live logger sharing the AtomicLevel lets through exactly the levels >= the new one *)
+Theorem C20_http_step : forall cur r,
+  let o := serve G cur r in
+  (forall l, spec_names_level r = Some l ->
+     status o = 200 /\ after o = l /\ payload o = spec_payload l /\ valid_level l = true) /\
+  (spec_names_level r = None ->
+     after o = cur /\
+     (bytes_eqb (r_method r) s_get = true -> status o = 200 /\ payload o = spec_payload cur) /\
+     (bytes_eqb (r_method r) s_get = false ->
+        status o = (if bytes_eqb (r_method r) s_put then 400 else 405) /\ kind o = 2)) /\
+  (after o <> cur -> bytes_eqb (r_method r) s_put = true /\ spec_names_level r = Some (after o)) /\
+  mask o = enabled_mask (after o).
+Proof. exact (http_step_thm G G_checked). Qed.
+Print Assumptions C20_http_step.
+
+(* the model's handler, completely: it is the specification's response function *)
+Theorem C20_http_serve : forall cur r,
+  serve G cur r =
+  if bytes_eqb (r_method r) s_get then
+    {| status := 200; kind := 1; payload := spec_payload cur; after := cur; mask := enabled_mask cur |}
+  else match spec_names_level r with
+       | Some l => {| status := 200; kind := 1; payload := spec_payload l; after := l; mask := enabled_mask l |}
+       | None => {| status := if bytes_eqb (r_method r) s_put then 400 else 405;
+                    kind := 2; payload := []; after := cur; mask := enabled_mask cur |}
+       end.
+Proof. exact (serve_spec G G_checked). Qed.
+Print Assumptions C20_http_serve.
+
+(* any sequence of requests against one AtomicLevel: every response is correct for the
+   level in force when its request arrived, and the level at the end is that of the last
+   PUT naming a valid level, else the initial one (so it is the initial or a valid level) *)
+Theorem C20_http_history : forall init rs,
+  hist_ok init rs (run G init rs) /\
+  final_level G init rs = spec_final init rs /\
+  last (map after (run G init rs)) init = spec_final init rs /\
+  (spec_final init rs = init \/ valid_level (spec_final init rs) = true).
+Proof. exact (http_history_thm G G_checked). Qed.
+Print Assumptions C20_http_history.
+
+Theorem C20_http_unchanged_without_named_put : forall init rs,
+  (forall r, In r rs -> spec_names_level r = None) -> final_level G init rs = init.
+Proof. exact (history_unchanged_thm G G_checked). Qed.
+Print Assumptions C20_http_unchanged_without_named_put.
+
+(* documentation of the behaviour before the fix (zapcore.Level.UnmarshalText retried with
+   bytes.ToLower): for ANY function that maps the witness U+0130 "nfo" to "info" -- which
+   Go's bytes.ToLower does -- the original code accepts a text the specification rejects *)
+Theorem C20_reject_orig_refuted : forall go_to_lower,
+  go_to_lower orig_witness_text = orig_witness_lowered -> ~ reject_full_orig go_to_lower.
+Proof. exact reject_full_orig_refuted. Qed.
+Print Assumptions C20_reject_orig_refuted.
+
+Theorem C20_orig_witness :
+  level_unmarshal_text_orig G 42 orig_witness_text orig_witness_lowered = (0, true) /\
+  spec_result 42 orig_witness_text = (42, false) /\
+  level_unmarshal_text G 42 orig_witness_text = (42, false).
+Proof. exact orig_accepts_non_ascii. Qed.
+Print Assumptions C20_orig_witness.
+
+(* the oracle the driver runs accepts what the model observes, on every well-formed case *)
+Theorem C20_wire : forall i, wf i = true -> spec i (model i) = true.
+Proof. exact spec_model. Qed.
+Print Assumptions C20_wire.
+
+(* ---- non-vacuity ---- *)
+Example C20_ex_valid : valid_level 3 = true /\ valid_level 6 = false /\ valid_level (-128) = false.
+Proof. vm_compute. auto. Qed.
+
+(* "WaRnInG" reads as warn into a target holding 42; "warnin" is rejected, 42 stays *)
+Example C20_ex_text :
+  level_unmarshal_text G 42 [x57; x61; x52; x6e; x49; x6e; x47] = (1, true) /\
+  level_unmarshal_text G 42 [x77; x61; x72; x6e; x69; x6e] = (42, false) /\
+  level_string G 3 = [x64; x70; x61; x6e; x69; x63] /\
+  level_capital G (-128) = [x4c; x45; x56; x45; x4c; x28; x2d; x31; x32; x38; x29].
+Proof. vm_compute. auto. Qed.
+
+Definition ex_json (t : bytes) : request :=
+  {| r_method := s_put; r_ctype := []; r_form := []; r_json := JOk [t] false |}.
+Definition ex_form (t : bytes) : request :=
+  {| r_method := s_put; r_ctype := s_form_ctype; r_form := [(s_level, t)]; r_json := JErr |}.
+Definition ex_get : request := {| r_method := s_get; r_ctype := []; r_form := []; r_json := JErr |}.
+Definition ex_post (t : bytes) : request :=
+  {| r_method := [x50; x4f; x53; x54]; r_ctype := []; r_form := []; r_json := JOk [t] false |}.
+
+(* PUT {"level":"debug"}; PUT {"level":"bogus"}; GET; PUT level=ERROR (form); POST {"level":"info"};
+   PUT level= (form); PUT {"level":""}:  statuses, levels after each request, and the wire check *)
+Example C20_ex_history :
+  let rs := [ex_json [x64; x65; x62; x75; x67]; ex_json [x62; x6f; x67; x75; x73]; ex_get;
+             ex_form [x45; x52; x52; x4f; x52]; ex_post [x69; x6e; x66; x6f]; ex_form []; ex_json []] in
+  map status (run G 4 rs) = [200; 400; 200; 200; 405; 400; 200] /\
+  map after (run G 4 rs) = [-1; -1; -1; 2; 2; 2; 0] /\
+  map mask (run G 4 rs) = [127; 127; 127; 120; 120; 120; 126] /\
+  spec_names_level (ex_form [x45; x52; x52; x4f; x52]) = Some 2 /\
+  spec_final 4 rs = 0.
+Proof. vm_compute. repeat split; reflexivity. Qed.
+
+(* the oracle is not trivially true: on the case (1 2 #c4b06e666f ..) -- U+0130 "nfo" into a
+   target holding 2 -- it accepts the model's observation (rejected, 2 kept) and rejects the
+   observation the code before the fix produced (accepted as info by all eleven entry points) *)
+Example C20_ex_oracle :
+  let t := [xc4; xb0; x6e; x66; x6f] in
+  let i := SL [SZ 1; SZ 2; SB t; SL [SB t]; SL [SB t]] in
+  let acc := SL [SZ 0; SZ 1] in
+  wf i = true /\
+  model i = SL [SL [SZ 2; SZ 0]; SL [SZ 2; SZ 0]; SL [SZ 0; SZ 0]; SL [SZ 2; SZ 0]; SL [SZ 2; SZ 0]; SL [SZ 2; SZ 0];
+                SL [SZ 0; SZ 0]; SL [SZ 0; SZ 0]; SL [SZ 2; SZ 0]; SL [SZ 2; SZ 0]; SL [SZ 2; SZ 0]] /\
+  spec i (SL [acc; acc; acc; acc; acc; acc; acc; acc; acc; acc; acc]) = false.
+Proof. vm_compute. repeat split; reflexivity. Qed.
+
+(* ... and on a one-request history: PUT with an undecodable body against level 46 must leave 46
+   (the observation of mutation M4, level reset to info, is rejected) *)
+Example C20_ex_oracle_http :
+  let i := SL [SZ 2; SZ 46; SL [SL [SB s_put; SB []; SL []; SL [SZ 1; SL []; SZ 0]]]] in
+  model i = SL [SL [SZ 400; SZ 2; SB []; SZ 46; SZ 0]] /\
+  spec i (SL [SL [SZ 400; SZ 2; SB []; SZ 0; SZ 126]]) = false /\
+  spec i (SL [SL [SZ 405; SZ 2; SB []; SZ 46; SZ 0]]) = true.
+Proof. vm_compute. repeat split; reflexivity. Qed.
